@@ -4,6 +4,7 @@
   of Demeter.Squeeth, in every arithmetic context.
 -/
 import Proofs.Lemmas.Squeeth
+import Proofs.Lemmas.SqueethLong
 import Mathlib.Tactic.SplitIfs
 namespace Demeter
 namespace Squeeth
@@ -726,6 +727,10 @@ theorem openBody_once (cx : NumCtx) (e : Env) (s : State) (d m : Rat) (vk? : Opt
     | some p => exact depositUniBody_once s2 vk p h2 h5
   exact h3.of_sameRefs (sameRefs_checked cx e _ vk _)
 
+/-- the long side never touches vault references, position flags or the id counter -/
+theorem sameRefs_of_frame {s s' : State} (h : s'.vaults = s.vaults ∧ s'.positions = s.positions ∧ s'.maxId = s.maxId) : SameRefs s s' :=
+  ⟨fun _ => by rw [h.1], fun _ => by rw [h.2.1], h.2.2⟩
+
 /-- every operation body, when it is accepted, keeps "every LP position is held exactly once" -/
 theorem stepBody_once_of_ok (cx : NumCtx) (e : Env) (s : State) (op : Op) (h : Once s) (hok : (stepBody cx e s op).err = none) :
     Once (stepBody cx e s op).st := by
@@ -739,6 +744,8 @@ theorem stepBody_once_of_ok (cx : NumCtx) (e : Env) (s : State) (op : Op) (h : O
   | update => exact updateGo_once cx e _ s h
   | reduceDebt vk pb => exact reduceDebtBody_once cx e s vk pb h hok
   | uniRemove pos => exact uniRemoveOp_once cx e s pos h
+  | buy o q => exact h.of_sameRefs (sameRefs_of_frame (buy_frame cx e s o q))
+  | sell o q => exact h.of_sameRefs (sameRefs_of_frame (sell_frame cx e s o q))
 
 end Squeeth
 end Demeter
